@@ -19,7 +19,41 @@ fn moves(op: &Op, r: &OpRes) -> bool {
 pub fn case(tape: &[u8], ctx: &Ctx) -> Outcome {
     let mut o = Outcome::new();
     let mut t = Tape::new(tape);
-    let p = gen_program(&mut t, true, 48);
+    let mut p = gen_program(&mut t, true, 48);
+    // (decoded after the program, so older tapes keep their meaning) inflate input with SYNC/FULL flush markers and
+    // extra inflateSync / inflate steps: without markers inflateSync can only ever answer Z_DATA_ERROR
+    if t.chance(70) {
+        let iw = p.ops.iter().find_map(|o| if let Op::IInit { wbits } = o { Some(*wbits) } else { None });
+        if let Some(w) = iw {
+            let wrap = match w {
+                -15..=-8 => Some(crate::refimpl::rgzh::Wrap::Raw),
+                8..=15 | 40..=47 => Some(crate::refimpl::rgzh::Wrap::Zlib),
+                24..=31 => Some(crate::refimpl::rgzh::Wrap::Gzip),
+                _ => None,
+            };
+            if let (Some(wrap), true) = (wrap, p.data.len() >= 8) {
+                let cfg = crate::gen::DefCfg { level: t.pick(&[1, 6, 9, 0]), strategy: 0, wrap, wbits: 15, mem_level: 8 };
+                let k = 1 + t.below(3);
+                let mut cuts: Vec<usize> = (0..k).map(|_| t.below(p.data.len())).collect();
+                cuts.sort();
+                let fl = if t.bool() { Z_FULL_FLUSH } else { Z_SYNC_FLUSH };
+                if let Some(mut c) = crate::gen::deflate_flushed::<Ng>(&cfg, &p.data, &cuts, fl) {
+                    if t.bool() && c.len() > 12 {
+                        let at = 2 + t.below(c.len() - 2);
+                        c[at] ^= 1 << t.below(8);
+                    }
+                    p.comp = c;
+                    let first = p.ops.iter().position(|o| matches!(o, Op::IInit { .. })).unwrap();
+                    for _ in 0..1 + t.below(4) {
+                        let at = first + 1 + t.below(p.ops.len() - first);
+                        let op = if t.below(3) == 0 { Op::IInflate { in_len: t.pick(&[1usize, 5, 16, 100, 1000, 70000]), out_len: t.pick(&[0usize, 1, 100, 5000, 70000]), flush: 0 } } else { Op::ISync { in_len: t.pick(&[0usize, 1, 2, 3, 4, 5, 9, 100, 1000, 70000]) } };
+                        p.ops.insert(at, op);
+                    }
+                }
+            }
+        }
+    }
+    let p = p;
     let ok = ARENAS2.with(|ar| survives(|| {
         let _ = run_program::<Ng>(&p, ar);
     }));
@@ -48,8 +82,38 @@ pub fn case(tape: &[u8], ctx: &Ctx) -> Outcome {
     let mut ng_fresh: Option<Exec> = None;
     let mut seen_unusual = false;
     let mut nontrivial = false;
+    //  * gzip streams on which inflateValidate switched checking off and later on again: zlib-ng 2.3.3 only resets
+    //    its folding-CRC state while checking is on, so the value it compares with the trailer afterwards comes from
+    //    uninitialised memory (its verdict varies from run to run; stock zlib and zlib-rs accept the valid stream).
+    //    From the re-enabling call until the next inflateInit2/inflateReset2 the inflate slot is not compared.
+    let (mut i_gz, mut val_off, mut i_taint, mut ever_i_taint) = (false, false, false, false);
     for (k, op) in p.ops.iter().enumerate() {
         let (a, mut b) = (&rs.res[k], &ng.res[k]);
+        match op {
+            Op::IInit { wbits } if a.rc == 0 => {
+                i_gz = *wbits >= 16;
+                val_off = false;
+                i_taint = false;
+            }
+            Op::IReset2 { wbits } if a.rc == 0 => {
+                i_gz = *wbits >= 16;
+                val_off = false;
+                i_taint = false;
+            }
+            Op::IValidate { v } if a.rc == 0 && i_gz => {
+                if *v == 0 {
+                    val_off = true;
+                } else if val_off {
+                    i_taint = true;
+                    ever_i_taint = true;
+                }
+            }
+            _ => {}
+        }
+        if i_taint && matches!(op, Op::IInflate { .. } | Op::ISync { .. } | Op::ISyncPoint | Op::IMark | Op::ICopyBack | Op::IGetDict { .. }) {
+            o.class("not compared: gzip stream after inflateValidate off->on (zlib-ng's CRC state is unspecified)");
+            continue;
+        }
         let slot = match op {
             Op::DDeflate { which, .. } | Op::DParams { which, .. } | Op::DTune { which, .. } | Op::DPrime { which, .. } | Op::DPending { which, .. } | Op::DBound { which, .. } | Op::DSetDict { which, .. } | Op::DGetDict { which, .. } | Op::DSetHeader { which, .. } | Op::DReset { which } | Op::DResetKeep { which } | Op::DEnd { which } => Some(*which),
             Op::DInit { .. } => Some(0),
@@ -128,7 +192,7 @@ pub fn case(tape: &[u8], ctx: &Ctx) -> Outcome {
             nontrivial = true;
         }
     }
-    if rs.i_out != ng.i_out {
+    if rs.i_out != ng.i_out && !ever_i_taint {
         o.fail("final/outputs", "accumulated inflate outputs differ although every call matched".to_string());
         return o;
     }
